@@ -59,7 +59,10 @@ def mon_names_seq(ops, lines):
 # ---------------------------------------------------------------- a reading of a case's history
 
 class Delivery:
-    __slots__ = ("sub", "ack", "mid", "data", "attrs", "pt", "t", "resp", "via")
+    # t = instant at which the delivery was observed; lo = earliest instant at which it can have happened
+    # (a stream batch is observed by the next SR, possibly much later than it was sent); dl = the ack deadline
+    # (seconds) the subscription had when the delivery was observed
+    __slots__ = ("sub", "ack", "mid", "data", "attrs", "pt", "t", "lo", "dl", "resp", "via")
 
     def __init__(self, **kw):
         for k, v in kw.items():
@@ -118,11 +121,13 @@ class History:
             elif k == "PULL" and code == "0":
                 msgs, _ = parse_msgs(rt, 3, int(rt[2]))
                 ev["msgs"] = [Delivery(sub=ot[1], ack=m[0], mid=m[1], data=m[2], attrs=m[3], pt=m[4], t=self.now,
-                                       resp=idx, via="pull") for m in msgs]
+                                       lo=self.now, dl=self.sub_ackdl.get(ot[1]), resp=idx, via="pull") for m in msgs]
                 acks_seen += [m[0] for m in msgs]
                 ev["max"] = int(ot[2])
             elif k == "SO" and code == "0":
                 self.stream_sub[ot[1]] = ot[2]
+                self.stream_seen = getattr(self, "stream_seen", {})
+                self.stream_seen[ot[1]] = self.now
                 ev["max"] = int(ot[3])
             elif k == "SR":
                 nresp = int(rt[1])
@@ -132,13 +137,17 @@ class History:
                     n = int(rt[i])
                     msgs, i = parse_msgs(rt, i + 1, n)
                     sub = self.stream_sub.get(ot[1], "?")
+                    seen_at = getattr(self, "stream_seen", {}).get(ot[1], 0)
                     ds = [Delivery(sub=sub, ack=m[0], mid=m[1], data=m[2], attrs=m[3], pt=m[4], t=self.now,
-                                   resp=(idx, len(batches)), via="stream") for m in msgs]
+                                   lo=seen_at, dl=self.sub_ackdl.get(sub), resp=(idx, len(batches)), via="stream")
+                          for m in msgs]
                     acks_seen += [m[0] for m in msgs]
                     batches.append(ds)
                 ev["batches"] = batches
                 ev["term"] = rt[i] if i < len(rt) else "-"
                 ev["sid"] = ot[1]
+                self.stream_seen = getattr(self, "stream_seen", {})
+                self.stream_seen[ot[1]] = self.now
             elif k in ("ACK",):
                 n = int(ot[2])
                 ev["ids"] = [res(x) for x in ot[3:3 + n]]
@@ -190,10 +199,10 @@ def lease_windows(h):
     out = []
     evs = h.events
     for ev, d in h.deliveries():
-        dl = h.sub_ackdl.get(d.sub)
+        dl = d.dl
         if dl is None:
             continue
-        until = d.t + dl * 10 ** 9
+        until = d.lo + dl * 10 ** 9      # certainly still leased before this instant
         acked_at = None
         try:
             av = ack_value(d.ack)
@@ -242,7 +251,8 @@ def mon_exclusive(ops, lines):
                 return "C03-dup-in-response: op %d returned the same message twice" % ev["i"]
     for d, ev, until, _ in lease_windows(h):
         for ev2, d2 in h.deliveries():
-            if ev2["i"] > ev["i"] and d2.sub == d.sub and d2.mid == d.mid and ev2["t"] < until:
+            later = ev2["i"] > ev["i"] or (ev2["i"] == ev["i"] and d2 is not d and d2.resp > d.resp)
+            if later and d2.sub == d.sub and d2.mid == d.mid and ev2["t"] < until:
                 return ("C03-double-lease: message %r delivered on %r at %d ns and again at %d ns although its lease "
                         "lasts until %d ns at least" % (unhx(d.mid), unhx(d.sub), d.t, ev2["t"], until))
     return None
